@@ -92,7 +92,7 @@ func (server *SugarDB) Flush(database int) {
 			// Clear db store.
 			clear(server.store[db])
 			// Clear db volatile key tracker.
-			clear(server.keysWithExpiry.keys[db])
+			server.keysWithExpiry.keys[db] = make([]string, 0)
 			// Clear db LFU cache.
 			server.lfuCache.cache[db].Mutex.Lock()
 			server.lfuCache.cache[db].Flush()
@@ -126,7 +126,7 @@ func (server *SugarDB) Flush(database int) {
 	// Clear db store.
 	clear(server.store[database])
 	// Clear db volatile key tracker.
-	clear(server.keysWithExpiry.keys[database])
+	server.keysWithExpiry.keys[database] = make([]string, 0)
 	// Clear db LFU cache.
 	server.lfuCache.cache[database].Mutex.Lock()
 	server.lfuCache.cache[database].Flush()
